@@ -241,7 +241,10 @@ func runC12(t *testing.T, tp *simrt.Tape, keepTrace bool) hx.Result {
 	// install renames: renames onto final *.zoekt / *.meta names
 	firstInstall, lastMut := 0, 0
 	for _, o := range ops {
-		if o.Name == "rename" && (strings.HasSuffix(o.Path, ".zoekt") || strings.HasSuffix(o.Path, ".meta")) && firstInstall == 0 {
+		// the install phase starts with the first operation that changes what a searcher
+		// sees: a rename onto a final name or the removal of an installed file
+		final := strings.HasSuffix(o.Path, ".zoekt") || strings.HasSuffix(o.Path, ".meta")
+		if (o.Name == "rename" || o.Name == "remove") && final && firstInstall == 0 {
 			firstInstall = o.K
 		}
 		if o.Mut {
